@@ -325,6 +325,7 @@ def canonicalise(tree: ast.AST) -> ast.AST:
                 return ast.copy_location(ast.Assign(targets=[node.target], value=node.value), node)
             return node
     T().visit(tree)
+    _split_tuple_assigns(tree)
     _fold_append_loops(tree)
     _inline_adjacent_temporaries(tree)
     ast.fix_missing_locations(tree)
@@ -333,6 +334,38 @@ def canonicalise(tree: ast.AST) -> ast.AST:
 
 _PURE_NODES = (ast.Name, ast.Attribute, ast.Subscript, ast.Constant, ast.BinOp, ast.Compare, ast.Tuple, ast.UnaryOp, ast.Slice, ast.expr_context, ast.operator, ast.cmpop,
                ast.unaryop)
+
+
+def _split_tuple_assigns(tree: ast.AST) -> None:
+    '''`a, b = x, y` (both sides tuples of one length, no target name read on the right) is `a = x; b = y`.'''
+    for fn in ast.walk(tree):
+        if not isinstance(fn, (ast.FunctionDef, ast.AsyncFunctionDef)):
+            continue
+        for holder in ast.walk(fn):
+            for field in ('body', 'orelse', 'finalbody'):
+                st = getattr(holder, field, None)
+                if not isinstance(st, list):
+                    continue
+                i = 0
+                while i < len(st):
+                    a = st[i]
+                    if isinstance(a, ast.Assign) and len(a.targets) == 1 and isinstance(a.targets[0], ast.Tuple) and isinstance(a.value, ast.Tuple) \
+                            and len(a.targets[0].elts) == len(a.value.elts) and all(isinstance(t, ast.Name) for t in a.targets[0].elts) \
+                            and not any(isinstance(e, ast.Starred) for e in a.value.elts):
+                        tl = [t.id for t in a.targets[0].elts]
+                        # sequential assignment equals the parallel one when no element reads a target that an earlier position has already changed
+                        safe = len(set(tl)) == len(tl)
+                        for j, e in enumerate(a.value.elts):
+                            for x in ast.walk(e):
+                                if isinstance(x, ast.Name) and x.id in tl[:j]:
+                                    k_ = tl.index(x.id)
+                                    if not (isinstance(a.value.elts[k_], ast.Name) and a.value.elts[k_].id == x.id):
+                                        safe = False
+                        if safe:
+                            st[i:i + 1] = [ast.copy_location(ast.Assign(targets=[t], value=e), a) for t, e in zip(a.targets[0].elts, a.value.elts)]
+                            i += len(a.value.elts)
+                            continue
+                    i += 1
 
 
 def _fold_append_loops(tree: ast.AST) -> None:
@@ -608,6 +641,7 @@ def _inline_single_call_helpers(trees: tp.Sequence[ast.AST]) -> None:
                         i += len(new) - 1
             ast.fix_missing_locations(fn)
     for tree in trees:
+        _split_tuple_assigns(tree)
         _fold_append_loops(tree)
         _inline_adjacent_temporaries(tree)
         ast.fix_missing_locations(tree)
